@@ -750,3 +750,7 @@ mod tests {
         );
     }
 }
+
+#[cfg(kani)]
+#[path = "/verif/harness/foyer-storage/buffer.rs"]
+mod verif_kani;
